@@ -98,6 +98,8 @@ def cases(tier, seed=0):
                 method, opts = ['fixed-point', 'newton', 'linear'][(gi + ki) % 3], {}
             if tier == 'quick' and not g['recursive'] and (gi + ki) % 2 and 'only' not in g and not g['name'].startswith('dup_ext'):
                 continue
+            if tier != 'quick' and kind == 'viterbi' and not g['recursive'] and (gi + ki) % 2 and 'only' not in g and len(g['spec']['rules']) > 2:
+                continue      # arg-max forking over three-rule grammars: the same selection as the quick tier
             cs.append({'name': g['name'], 'spec': g['spec'], 'recursive': g['recursive'], 'semiring': kind, 'method': method, 'opts': opts,
                        'grad': kind == 'real' and not g['recursive'],
                        # weight of the viterbi derivation (finite weights: the maximum is attained; recursion excluded, see F14 of C04)
@@ -127,7 +129,7 @@ def run_case(col, case):
     RP = z3.Int('rule_perm')
     # the larger presentation space of the thorough tier (edge orders of two rules, node reversal of every rule, ids independent of the
     # renaming) is affordable where a presentation costs one sum_product; with arg-max forking (viterbi) it is not
-    small = TIER[0] == 'quick' or kind == 'viterbi'
+    small = TIER[0] == 'quick' or kind == 'viterbi' or case['recursive'] or nr > 3
     ne = 1 if small else min(nr, 2)
     EP = [z3.Int(f'edge_perm{i}') for i in range(ne)]
     eperms = [presentations.perms(len(spec['rules'][i]['edges'])) for i in range(ne)]
